@@ -144,3 +144,21 @@ pub fn get() -> AdversaryKnobs {
     }
     k
 }
+
+/// When set (non-zero `c`), and the FRI prover is asked to pad the final polynomial for a verifier
+/// circuit with a longer one (`final_poly_coeff_len`), `c * (X^n - s^n)` is added to the final
+/// polynomial before it is sent, `s * H_n` being the last evaluation domain: the values on that
+/// domain are unchanged, the polynomial is longer than the honest one. Separate from
+/// `AdversaryKnobs` so that existing drivers are unaffected.
+static FINAL_POLY_VANISHING: AtomicU64 = AtomicU64::new(0);
+
+pub fn set_final_poly_vanishing_multiple(c: Option<u64>) {
+    FINAL_POLY_VANISHING.store(c.unwrap_or(0), Ordering::SeqCst);
+}
+
+pub fn final_poly_vanishing_multiple() -> Option<u64> {
+    match FINAL_POLY_VANISHING.load(Ordering::SeqCst) {
+        0 => None,
+        c => Some(c),
+    }
+}
